@@ -352,7 +352,7 @@ func alphabet() []op {
 func bfs(rep *report.Report) {
 	depth := 6
 	if rep.Thorough() {
-		depth = 9
+		depth = 14
 	}
 	seen := map[string]bool{"": true}
 	frontier := [][]op{nil}
